@@ -320,7 +320,7 @@ def run_case(name, files, meta, probe=False):
     else:
         l2 = res["ll"]
         t2 = "\n".join(l for l in l2.err.split("\n") if not l.startswith("VERIF-"))
-        if l2.kind == "exit" and t2 != text:
+        if l2.kind == "exit" and l2.rc == 0 and r.kind == "exit" and r.rc == 0 and t2 != text:
             fd = core.first_diff(text, t2)
             report(name + "-ll-output", files, meta, "output", "[output] the binary linked from the dumped IR prints something else than the in-memory build: line %d `%s` vs `%s`" % (
                 fd[0] + 1, fd[1], fd[2]), {"out.llgo.txt": r.err, "out.ll.txt": l2.err})
